@@ -15,6 +15,7 @@ import (
 	"time"
 
 	"github.com/moov-io/ach"
+	"github.com/moov-io/ach/server"
 
 	"verifharness/internal/gen"
 	"verifharness/internal/hx"
@@ -312,10 +313,47 @@ func runOp(f *ach.File, o opCase) (res opResult) {
 	case "write":
 		_, err := writeFile(f, false)
 		res.Err = err != nil
+	case "serverValidate":
+		// GET/POST /files/{id}/validate: the service validates the stored *ach.File with the request's options
+		id := f.ID
+		if f.ID == "" {
+			f.ID = "c14-stored"
+		}
+		repo := server.NewRepositoryInMemory(0, nil)
+		svc := server.NewService(repo)
+		if repo.StoreFile(f) == nil {
+			var opts *ach.ValidateOpts
+			if !o.Nil {
+				opts = optsFromMask(o.Opts)
+			}
+			res.Err = svc.ValidateFile(f.ID, opts) != nil
+		}
+		f.ID = id
 	default:
 		panic("unknown op " + o.Op)
 	}
 	return
+}
+
+// genOpsWithServer: the oracle's histories also go through the server's validate route (an observation point of
+// the property); the correspondence keeps the library operations the model knows.
+func genOpsWithServer(r *rng.R, max int) []opCase {
+	ops := genOps(r, max)
+	for i := range ops {
+		if r.Chance(1, 5) {
+			o := opCase{Op: "serverValidate"}
+			switch r.Intn(4) {
+			case 0:
+				o.Nil = true
+			case 1:
+				o.Opts = 1 << uint(r.Intn(numBoolOpts()))
+			default:
+				o.Opts = randMask(r)
+			}
+			ops[i] = o
+		}
+	}
+	return ops
 }
 
 var opNames = []string{"validate", "validateWith", "batchValidate", "string", "json", "writeBypass", "write"}
@@ -597,7 +635,7 @@ func oracle(args []string) {
 		run(testCase{File: fc, Ops: []opCase{{Op: "validate"}, {Op: "write"}, {Op: "string", Arg: 0}, {Op: "json"}, {Op: "writeBypass"}}})
 	}
 	for i := 0; i < *n; i++ {
-		run(testCase{File: genFileCase(r, fx), Ops: genOps(r, 5)})
+		run(testCase{File: genFileCase(r, fx), Ops: genOpsWithServer(r, 5)})
 	}
 	enc(sum)
 	res.Close()
